@@ -7,6 +7,9 @@ Case kinds
   param  a history of `parameter.value = v` on one Parameter object    (verdict + stored value after every call)
   vdata  a history of InputValidation.validate_data calls on one object (verdict per call, rule table before/after)
   chain  one InputValidation.validate(name, value, rules) call          (accept_iff)
+  infer  InputValidation._validations_from_uijson over a SEQUENCE of template-built forms in one process (first form again at the end)
+  ifv    a history on ONE validating InputFile: ui_json assignment(s), whole-data assignments, set_data_value; verdicts, the form
+         after every call, and the verdict a brand-new InputFile gives for the same data
 """
 from __future__ import annotations
 
@@ -22,8 +25,10 @@ PROPERTIES_V = "theories/Properties/C15.v"
 _W = uipv.WORLD
 W0 = ("{| w_ents := [" + "; ".join(f"({u}%N, {'KEntity' if k == 'ent' else '(KPropGroup ' + uipv.cstring(k[3:]) + ')'})" for u, k in _W["ents"].items())
       + "]; w_desc := [" + "; ".join(f"({u}%N, [" + "; ".join(f"{d}%N" for d in ds) + "])" for u, ds in _W["desc"].items()) + "] |}")
-CASE_IMPORTS = ("From Coq Require Import String.\nFrom GV Require Import Prelude.Base Model.PyVal Model.UiRules Model.Enforcers.\n"
-                "From GVgen Require Import PyLite_SharedUtils PyLite_UiUtils PyLite_Validators.\nLocal Open Scope string_scope.\n"
+CASE_IMPORTS = ("From Coq Require Import String.\nFrom GV Require Import Prelude.Base Model.PyVal Model.UiRules Model.Enforcers Model.UiForms "
+                "Model.UiCodec Model.IfValidate.\n"
+                "From GVgen Require Import PyLite_SharedUtils PyLite_UiUtils PyLite_Validators PyLite_Validation Table_UiValidations.\n"
+                "Local Open Scope string_scope.\n"
                 f"Definition W0 : world := {W0}.")
 ALLOWED_AXIOMS: list = []
 REFUTED = [
@@ -65,7 +70,7 @@ TECHNIQUE = "Coq proof over PyLite-translated source + hand models, tied by diff
 
 
 def regenerate(repo):
-    return units.regenerate_all(repo, C.VERIF, only=["PyLite_SharedUtils.v", "PyLite_UiUtils.v", "PyLite_Validators.v"])
+    return units.regenerate_all(repo, C.VERIF)
 
 
 # ============================================================================= generation
@@ -247,6 +252,103 @@ def gen_chain_case(rng):
             "ignore_requirements": rng.chance(10), "ignored": rng.chance(5)}
 
 
+def gen_assoc_case(rng):
+    """membership of the referenced parent object / group / workspace, parents with nested children (depth >= 2)"""
+    parent = rng.choice([{"e": 0x10, "k": "ent"}, {"e": 0x10, "k": "ent"}, {"e": 0x20, "k": "ent"}, {"e": 0x21, "k": "ent"},
+                         {"e": 0x11, "k": "ent"}, {"w": "WORLD"}, {"e": 0x30, "k": "ent"}])
+    uid = rng.choice([0x30, 0x31, 0x38, 0x20, 0x21, 0x40, 0x41, 0x10, 0x99])
+    value = {"u": uid} if rng.chance(40) or uid == 0x99 else {"e": uid, "k": uipv.WORLD["ents"][uid]}
+    rules = [["association", parent]]
+    if rng.chance(50):
+        rules.insert(0, ["types", {"l": [{"ty": t} for t in ["str", "UUID", "Entity", "PropertyGroup"]]}])
+    if rng.chance(30):
+        rules.append(["uuid", None])
+    return {"k": "chain", "name": "q", "value": value, "rules": {"d": rules}, "ignore_requirements": False, "ignored": False}
+
+
+IFV_TEMPLATES = ["bool_parameter", "integer_parameter", "float_parameter", "string_parameter", "choice_string_parameter", "file_parameter",
+                 "object_parameter", "group_parameter", "data_parameter"]
+
+
+def gen_ifv_forms(rng, prefix, n):
+    names = [f"{prefix}{i}" for i in range(n)]
+    forms = []
+    for i, nm in enumerate(names):
+        for _ in range(20):
+            e = uipv.gen_form_entry(rng, nm, names[:i] + names[i + 1:])
+            if e["tmpl"] in IFV_TEMPLATES:
+                break
+        else:
+            e = {"name": nm, "tmpl": "float_parameter", "kw": {}, "extra": [], "drop": []}
+        if e["tmpl"] == "data_parameter":
+            objs = [f["name"] for f in forms if f["tmpl"] in ("object_parameter", "group_parameter")]
+            e["kw"]["parent"] = rng.choice(objs) if objs else ""
+            if not objs:
+                e = {"name": nm, "tmpl": "integer_parameter", "kw": {"value": 3}, "extra": [], "drop": []}
+        forms.append(e)
+    uipv.add_switches(rng, forms, weird=0)
+    ok_dep = {f["name"] for f in forms if f["tmpl"] == "bool_parameter" or "optional" in f["kw"]}
+    for f in forms:          # a dependency names a boolean or an optional parameter (C15's WfUi)
+        dep = [v for k2, v in f["extra"] if k2 == "dependency"]
+        if dep and dep[0] not in ok_dep:
+            f["extra"] = [kv for kv in f["extra"] if kv[0] not in ("dependency", "dependencyType")]
+    return forms
+
+
+def ifv_value(rng, entry):
+    """a candidate value for one form: from its domain, or violating it"""
+    t = entry["tmpl"]
+    bad = [None, "seven", 1.5 and {"f": [3, 1]}, {"l": [{"f": [3, 1]}]}, {"u": 0x99}, 12, True, {"l": []}]
+    if rng.chance(45):
+        return rng.choice(bad)
+    if t == "bool_parameter":
+        return rng.chance(50)
+    if t == "integer_parameter":
+        return rng.choice([0, 7, -2])
+    if t == "float_parameter":
+        return rng.choice([{"f": [5, 1]}, {"f": "inf"}, {"f": [0, 0]}])
+    if t == "string_parameter":
+        return rng.choice(["xyz", "hello"])
+    if t == "choice_string_parameter":
+        cl = entry["kw"]["choice_list"].get("l") or entry["kw"]["choice_list"].get("t")
+        return rng.choice(cl + ["quintic"]) if not entry["kw"].get("multi_select") else {"l": rng.sample(cl + ["quintic"], rng.range(0, 2))}
+    if t == "file_parameter":
+        return rng.choice(["a/b.chg", ""])
+    if t == "object_parameter":
+        return rng.choice([{"u": 0x20}, {"u": 0x21}, {"u": 0x30}, {"l": [{"u": 0x20}]}, {"u": 0x10}])
+    if t == "group_parameter":
+        return rng.choice([{"u": 0x10}, {"u": 0x11}, {"u": 0x20}])
+    return rng.choice([{"u": 0x30}, {"u": 0x31}, {"u": 0x38}, {"u": 0x40}, {"u": 0x32}])
+
+
+def gen_ifv_case(rng):
+    base = [{"name": "title", "raw": "T"}, {"name": "geoh5", "raw": {"w": "WORLD"}}]
+    ops = []
+    n_forms = 2 if rng.chance(55) else 1
+    for k in range(n_forms):
+        forms = gen_ifv_forms(rng, "a" if (k == 1 and rng.chance(8)) else "ab"[k], rng.range(2, 4))   # rarely: the second form re-uses names
+        ops.append({"op": "assign", "entries": base + forms})
+        for j in range(rng.range(1, 3)):
+            ch = [] if j == 0 and rng.chance(60) else [[f["name"], ifv_value(rng, f)] for f in rng.sample(forms, rng.range(1, 2))]
+            ops.append({"op": "data", "changes": ch})
+        if rng.chance(50):
+            f = rng.choice(forms)
+            ops.append({"op": "set", "key": f["name"], "value": ifv_value(rng, f)})
+    return {"k": "ifv", "ops": ops}
+
+
+def gen_infer_case(rng):
+    uis = []
+    for k in range(rng.range(2, 3)):
+        n = rng.range(2, 5)
+        names = [f"p{i}" for i in range(n)]
+        forms = [uipv.gen_form_entry(rng, nm, names[:i] + names[i + 1:]) for i, nm in enumerate(names)]
+        uipv.add_switches(rng, forms, weird=3)
+        uis.append([{"name": "title", "raw": "T"}, {"name": "geoh5", "raw": {"w": "WORLD"}}] + forms)
+    uis.append(copy.deepcopy(uis[0]))          # the first form again: its rules must come out the same
+    return {"k": "infer", "uis": uis}
+
+
 FN_UI = ["requires_value", "group_requires_value", "dependency_requires_value", "optional_requires_value", "is_form", "truth",
          "collect", "find_all", "group_optional", "group_enabled", "is_uijson", "flatten"]
 
@@ -330,6 +432,12 @@ def generate(rng, tier):
         cases.append(gen_vdata_case(rng))
     for _ in range(160 * scale):
         cases.append(gen_chain_case(rng))
+    for _ in range(40 * scale):
+        cases.append(gen_assoc_case(rng))
+    for _ in range(30 * scale):
+        cases.append(gen_infer_case(rng))
+    for _ in range(60 * scale):
+        cases.append(gen_ifv_case(rng))
     return cases
 
 
@@ -434,6 +542,72 @@ def drive_one(case, work):
             seq.append([verdict, enc(par.value, work)])
             fresh.append(_verdict(setv, mk(), dec(v, work)))
         return {"init": init, "seq": seq, "fresh": fresh}
+    if k == "infer":
+        from geoh5py.ui_json.validation import InputValidation
+        out = []
+        for entries in case["uis"]:
+            ui = uipv.build_ui(entries, work)
+            try:
+                u = enc(ui, work)
+            except uipv.NotExpressible as e:
+                return {"inexpressible": str(e)}
+            r = _encres(_call(InputValidation._validations_from_uijson, ui), work)      # pylint: disable=protected-access
+            out.append({"ui": u, "res": r})
+        return {"seq": out}
+    if k == "ifv":
+        from geoh5py.ui_json.input_file import InputFile
+
+        def forms_of(f):
+            return enc({n: (v.get("value"), v.get("enabled")) for n, v in f.ui_json.items() if isinstance(v, dict)}, work)
+
+        def defaults(f):
+            return {n: (v["value"] if isinstance(v, dict) else v) for n, v in f.ui_json.items()}
+        ifile, steps, cur_entries, loaded = None, [], None, False
+        try:
+            for op in case["ops"]:
+                st = {"op": op["op"]}
+                if op["op"] == "assign":
+                    cur_entries = op["entries"]
+                    ui = uipv.build_ui(cur_entries, work)
+                    try:
+                        if ifile is None:
+                            ifile = InputFile(ui_json=ui)
+                        else:
+                            ifile.ui_json = ui
+                    except Exception as e:  # noqa: BLE001
+                        st["verdict"] = type(e).__name__
+                        st["abort"] = True
+                        steps.append(st)
+                        break
+                    st["verdict"] = None
+                    st["ui"] = enc(ifile.ui_json, work)
+                    loaded = False
+                elif op["op"] == "data":
+                    data = defaults(ifile)
+                    for n, v in op["changes"]:
+                        data[n] = dec(v, work)
+                    st["data"] = enc(data, work)
+                    before = forms_of(ifile)
+                    d2 = {n: (list(v) if isinstance(v, list) else v) for n, v in data.items()}     # the very same data for a new InputFile
+
+                    def assign(f, d):
+                        f.data = d
+                    st["verdict"] = _verdict(assign, ifile, data)
+                    loaded = loaded or st["verdict"] is None
+                    st["forms_changed"] = forms_of(ifile) != before
+                    fresh = InputFile(ui_json=uipv.build_ui(cur_entries, work))
+                    st["fresh"] = _verdict(assign, fresh, d2)
+                elif not loaded:
+                    st["op"] = "skip"           # no data accepted for the current form yet: set_data_value would work on stale data
+                else:
+                    st["data"] = enc(ifile.data, work)
+                    before = forms_of(ifile)
+                    st["verdict"] = _verdict(ifile.set_data_value, op["key"], dec(op["value"], work))
+                    st["forms_changed"] = forms_of(ifile) != before
+                steps.append(st)
+        except uipv.NotExpressible as e:
+            return {"inexpressible": str(e), "steps": steps}
+        return {"steps": steps}
     if k in ("vdata", "chain"):
         from geoh5py.ui_json.validation import InputValidation
         opts = {"ignore_requirements": bool(case.get("ignore_requirements"))}
@@ -542,6 +716,37 @@ def case_term(case, obs):
             vals = "[" + "; ".join(coq(v) for v in case["vals"]) + "]"
             init = f"{{| pm_pool := fresh_pool {enf_term(enf)}; pm_val := {coq(obs['init'])} |}}"
             return f"param_obs_eqb (snd (param_run param_set {init} {vals})) [" + "; ".join(exp) + "]"
+        if k == "infer":
+            if "seq" not in obs:
+                return None
+            exp = []
+            for x in obs["seq"]:
+                if "inexpressible" in x["res"]:
+                    return None
+                r = coq_res(x["res"])
+                if r is None:
+                    return "false"
+                exp.append(r)
+            return f"res_list_same (infer_seq [" + "; ".join(coq(x["ui"]) for x in obs["seq"]) + "]) [" + "; ".join(exp) + "]"
+        if k == "ifv":
+            if "inexpressible" in obs or any(st.get("abort") for st in obs["steps"]):
+                return None
+            ops, exp, ui_cur = [], [], None
+            for st, op in zip(obs["steps"], case["ops"]):
+                if st["op"] == "skip":
+                    continue
+                e = cexn(st["verdict"])
+                if e is None:
+                    return "false"
+                exp.append(e)
+                if st["op"] == "assign":
+                    ui_cur = coq(st["ui"])
+                    ops.append(f"OpAssign {ui_cur}")
+                elif st["op"] == "data":
+                    ops.append(f"OpData {ui_cur} {coq(st['data'])}")
+                else:
+                    ops.append(f"OpSet {coq(st['data'])} {coq(op['key'])} {coq(op['value'])}")
+            return f"verdicts_eqb (ifv_run 8 W0 ifv_start [" + "; ".join(ops) + "]) [" + "; ".join(exp) + "]"
         opts = f"{{| ignore_requirements := {C.cbool(bool(case.get('ignore_requirements')))}; ignore_list := [" + \
                (coq(case["name"]) if case.get("ignored") else "") + "] |}"
         if k == "chain":
@@ -818,6 +1023,28 @@ def oracle(case, obs):  # noqa: C901
                           "what": f"call {i}: {obs['seq'][i]} on the used InputValidation, {obs['fresh'][i]} on a fresh one"})
         if any(t != obs["before"] for t in obs["tables"]):
             fails.append({"key": "validate-data-changes-rule-table", "what": "InputValidation.validations differs after validate_data"})
+    if k == "infer" and "seq" in obs:
+        first, last = obs["seq"][0], obs["seq"][-1]
+        if first["ui"] == last["ui"] and first["res"] != last["res"]:
+            fails.append({"key": "inferred-rules-depend-on-history",
+                          "what": f"the same form gives {first['res']} first and {last['res']} after other forms were processed"})
+    if k == "ifv":
+        seen, reused = {}, False
+        for op in case["ops"]:
+            if op["op"] == "assign":
+                for e in op["entries"]:
+                    if "tmpl" in e:
+                        if e["name"] in seen and seen[e["name"]] != (e["tmpl"], str(e["kw"]), str(e["extra"])):
+                            reused = True
+                        seen[e["name"]] = (e["tmpl"], str(e["kw"]), str(e["extra"]))
+        for i, st in enumerate(obs.get("steps", [])):
+            if st["op"] == "data" and st["verdict"] != st.get("fresh"):
+                fails.append({"key": "inputfile-stale-rules-same-parameter-name" if reused else "inputfile-verdict-depends-on-history",
+                              "what": f"op {i}: data assignment -> {st['verdict']} on the re-used InputFile, {st['fresh']} on a new one"})
+                break
+            if st["op"] in ("data", "set") and st["verdict"] in VALIDATION_ERRORS and st.get("forms_changed"):
+                fails.append({"key": "rejected-data-reached-form", "what": f"op {i} was rejected ({st['verdict']}) but the form changed"})
+                break
     if k == "chain":
         exp = chain_accepts(case)
         got = obs["verdict"]
@@ -860,6 +1087,11 @@ def nontrivial(case, obs):
         return True
     if k == "rv":
         return any(_is_form(f) and any(jhas(f, s) for s in ("group", "dependency")) for _, f in obs.get("ui", {"d": []})["d"])
+    if k == "infer":
+        return len(obs.get("seq", [])) >= 3
+    if k == "ifv":
+        st = obs.get("steps", [])
+        return sum(1 for x in st if x["op"] == "assign") >= 2 or any(x.get("verdict") in VALIDATION_ERRORS for x in st)
     return k == "chain" and len(case["rules"]["d"]) >= 2
 
 
@@ -892,6 +1124,12 @@ def histogram(cases, obs):
             for s in o.get("seq", []):
                 v = s[0] if isinstance(s, list) else s
                 h["verdicts"][str(v)] = h["verdicts"].get(str(v), 0) + 1
+        if k == "ifv":
+            for st in o.get("steps", []):
+                if st["op"] == "skip":
+                    continue
+                key = f"ifv:{st['op']}:{st.get('verdict')}"
+                h["verdicts"][key] = h["verdicts"].get(key, 0) + 1
         if k == "chain":
             for kk, _ in c["rules"]["d"]:
                 h["chain_rules"][kk] = h["chain_rules"].get(kk, 0) + 1
